@@ -822,6 +822,27 @@ pub fn drive(tier: &str) -> i32 {
         "several block statements on one source line (sequential and nested)".into(),
         vcore::slots::one_line_programs(),
     ));
+    {
+        // the same block programs with statements beyond column 255 (and 65 535): every other line indented by 256
+        // blanks, and the blank after every statement colon widened to 300 blanks
+        let mut far = vec![];
+        let mut base: Vec<String> = vcore::slots::block_skeletons(1).into_iter().map(|b| format!("X = 0\n{}PRINT \"end\"\n", b)).collect();
+        base.extend(vcore::slots::one_line_programs());
+        for t in &base {
+            for parity in 0..2 {
+                let shifted: String = t.split_inclusive('\n').enumerate().map(|(i, l)| if i % 2 == parity && !l.trim().is_empty() { format!("{}{}", " ".repeat(256), l) } else { l.to_string() }).collect();
+                far.push(shifted);
+            }
+            if t.contains(": ") {
+                far.push(t.replace(": ", &format!(":{}", " ".repeat(300))));
+            }
+            if !quick {
+                let shifted: String = t.split_inclusive('\n').enumerate().map(|(i, l)| if i % 2 == 1 && !l.trim().is_empty() { format!("{}{}", " ".repeat(65536), l) } else { l.to_string() }).collect();
+                far.push(shifted);
+            }
+        }
+        groups.push(("block programs with statements beyond column 255 (every other line indented by 256 blanks, 300 blanks after statement colons)".into(), far));
+    }
     groups.push((
         "statement soups".into(),
         vcore::slots::statement_soups(if quick { 2 } else { 3 }, 30),
